@@ -10,7 +10,14 @@ Local Open Scope list_scope.
    integrator when proposed_fixes/C20-F23.diff lands. *)
 Definition code_fixed_F23 := true.
 
-Definition corr_variant : variant := with_f23 code_fixed_F23.
+(* the same for the proposed repairs of validHostname (C20-N1.diff: length limit,
+   C20-N2.diff: ASCII-only lower-casing) and getListenAddress (C20-N3.diff) *)
+Definition code_fixed_N1 := true.
+Definition code_fixed_N2 := true.
+Definition code_fixed_N3 := true.
+
+Definition corr_variant : variant :=
+  Build_variant code_fixed_F23 false code_fixed_N1 code_fixed_N2 code_fixed_N3.
 
 (* observed result of a Go call returning (string, error) *)
 Inductive ob :=
